@@ -299,8 +299,46 @@ pub fn run_list<P: Prop>(p: &P, cases: &[P::Case]) -> Acc {
 pub struct Known {
     pub property: String,
     pub status: String,
+    /// exact minimal form ...
     pub key: String,
+    /// ... or a named structural class: a pattern over minimal forms ('*' matches any run of characters);
+    /// used only where one defect has an unbounded family of incomparable minimal forms
+    pub key_pattern: String,
     pub what: String,
+}
+
+/// glob-style match: '*' matches any (possibly empty) run of characters, everything else is literal
+pub fn pattern_matches(pat: &str, s: &str) -> bool {
+    let parts: Vec<&str> = pat.split('*').collect();
+    if parts.len() == 1 {
+        return pat == s;
+    }
+    let mut pos = 0usize;
+    for (i, part) in parts.iter().enumerate() {
+        if i == 0 {
+            if !s.starts_with(part) {
+                return false;
+            }
+            pos = part.len();
+        } else if i == parts.len() - 1 {
+            return s.len() >= pos + part.len() && s[pos..].ends_with(part);
+        } else {
+            match s[pos..].find(part) {
+                Some(k) => pos += k + part.len(),
+                None => return false,
+            }
+        }
+    }
+    true
+}
+
+impl Known {
+    pub fn matches(&self, key: &str) -> bool {
+        if !self.key.is_empty() && self.key == key {
+            return true;
+        }
+        !self.key_pattern.is_empty() && pattern_matches(&self.key_pattern, key)
+    }
 }
 
 pub fn load_known(path: &str) -> Result<Vec<Known>, String> {
@@ -319,6 +357,7 @@ pub fn load_known(path: &str) -> Result<Vec<Known>, String> {
             property: v["property"].as_str().unwrap_or("").to_string(),
             status: v["status"].as_str().unwrap_or("").to_string(),
             key: v["key"].as_str().unwrap_or("").to_string(),
+            key_pattern: v["key_pattern"].as_str().unwrap_or("").to_string(),
             what: v["what"].as_str().unwrap_or("").to_string(),
         });
     }
@@ -357,13 +396,25 @@ pub fn finish(ctx: &Ctx, meta: Meta, acc: Acc) -> i32 {
     let mut unlisted = Vec::new();
     let mut listed = Vec::new();
     for (k, v) in &acc.violations {
-        match known.iter().find(|kn| kn.property == ctx.id && kn.status == "open" && &kn.key == k) {
+        match known.iter().find(|kn| kn.property == ctx.id && kn.status == "open" && kn.matches(k)) {
             Some(kn) => listed.push((kn.clone(), v.clone())),
             None => unlisted.push(v.clone()),
         }
     }
+    // one line per listed finding (a class entry may cover several minimal forms)
+    let mut printed: Vec<(String, usize, u64, String)> = Vec::new();
     for (kn, v) in &listed {
-        println!("KNOWN-FINDING: property={} {} [key={}] ({} cases)", ctx.id, kn.what, kn.key, v.count);
+        let id = if kn.key.is_empty() { kn.key_pattern.clone() } else { kn.key.clone() };
+        match printed.iter_mut().find(|p| p.0 == id) {
+            Some(p) => {
+                p.1 += 1;
+                p.2 += v.count;
+            }
+            None => printed.push((id, 1, v.count, kn.what.clone())),
+        }
+    }
+    for (id, forms, cases, what) in &printed {
+        println!("KNOWN-FINDING: property={} {} [listed as {}; {} minimal form(s), {} failing cases]", ctx.id, what, id, forms, cases);
     }
     let mut exit = 0;
     let rdir = format!("{}/replays/{}", root, ctx.id);
@@ -409,7 +460,7 @@ pub fn finish(ctx: &Ctx, meta: Meta, acc: Acc) -> i32 {
         "bounds": meta.bounds,
         "raw_failing_cases": acc.raw_failures,
         "minimal_violation_forms": acc.violations.len(),
-        "known_findings_reproduced": listed.iter().map(|(k, v)| json!({"key": k.key, "cases": v.count})).collect::<Vec<_>>(),
+        "known_findings_reproduced": listed.iter().map(|(k, v)| json!({"listed_as": if k.key.is_empty() { k.key_pattern.clone() } else { k.key.clone() }, "form": v.key, "cases": v.count})).collect::<Vec<_>>(),
     });
     for (k, v) in &acc.notes {
         cov[k] = v.clone();
